@@ -128,7 +128,7 @@ func ruleJMP1(c *Ctx) {
 			// `if pos >= 0 { patch }`: emit never returns a negative position, so
 			// the guard holds whenever the placeholder was emitted
 			if is, ok := s.(*ast.IfStmt); ok && is.Else == nil && is.Init == nil {
-				if b, ok := ast.Unparen(is.Cond).(*ast.BinaryExpr); ok && b.Op == token.GEQ {
+				if b, ok := gtExpr(is.Cond); ok && b.Op == token.GEQ {
 					if id, ok := ast.Unparen(b.X).(*ast.Ident); ok && p.TypesInfo.Uses[id] == obj {
 						if k, ok := ConstInt(p, b.Y); ok && k == 0 {
 							return containsNode(is.Body, func(n ast.Node) bool { return isChangeOperandOf(n, obj) })
@@ -552,9 +552,22 @@ func ruleOPT(c *Ctx) {
 		if !ok {
 			return true
 		}
-		b, ok := ast.Unparen(is.Cond).(*ast.BinaryExpr)
-		if !ok || b.Op != token.EQL {
+		// the branch taken when the two sides are equal, however the test is
+		// spelled (`a == b`, `!(a != b)`, `a != b … else`)
+		bare, neg := stripNot(is.Cond)
+		b, ok := bare.(*ast.BinaryExpr)
+		if !ok || (b.Op != token.EQL && b.Op != token.NEQ) {
 			return true
+		}
+		if b.Op == token.NEQ {
+			neg = !neg
+		}
+		var eqBranch ast.Node = is.Body
+		if neg {
+			if is.Else == nil {
+				return true
+			}
+			eqBranch = is.Else
 		}
 		// one side: variable defined as len(<old instructions>); body passes a variable defined as len(<new>)
 		isLenVar := func(e ast.Expr) string {
@@ -585,7 +598,7 @@ func ruleOPT(c *Ctx) {
 		if old == "" || !strings.Contains(old, "Instructions") {
 			return true
 		}
-		ast.Inspect(is.Body, func(m ast.Node) bool {
+		ast.Inspect(eqBranch, func(m ast.Node) bool {
 			call, ok := m.(*ast.CallExpr)
 			if ok && Callee(p, call) != nil && Callee(p, call).Name() == "MakeInstruction" && len(call.Args) == 2 {
 				if nw := isLenVar(call.Args[1]); nw != "" && !strings.Contains(nw, "Instructions") {
@@ -715,8 +728,15 @@ func ruleLOCALTS(c *Ctx) {
 				return cond != nil && strings.Contains(strings.ReplaceAll(w.Src(cond), " ", ""), "!"+sym+".LocalAssigned")
 			}
 			for i := len(stack) - 1; i > 0 && !good; i-- {
-				if is, ok := stack[i-1].(*ast.IfStmt); ok && is.Else != nil && stack[i] == ast.Node(is.Else) {
-					if notAssigned(is.Cond) && definesIn(is.Body) {
+				if is, ok := stack[i-1].(*ast.IfStmt); ok && is.Else != nil {
+					// SETL in the branch taken when the condition "… && !LocalAssigned"
+					// is false, DEFL in the other one - whichever is written first
+					bare, neg := stripNot(is.Cond)
+					thenB, elseB := ast.Node(is.Body), ast.Node(is.Else)
+					if neg {
+						thenB, elseB = elseB, thenB
+					}
+					if stack[i] == elseB && notAssigned(bare) && definesIn(thenB) {
 						good = true
 					}
 				}
